@@ -12,7 +12,7 @@ import (
 func init() { register("C04", true, runC04) }
 
 func runC04(c *Check) {
-	c.Explanation = "Decides only two structural clauses of C04 (that flat, cum and edge weights equal their definition over samples is value-level and out of static reach): the printers of the output forms the property names (text/top items, tree/peek, dot, callgrind, topproto, web top) obtain node, edge and tag values through FlatValue/CumValue/WeightValue, or read the raw sum together with its divisor, so the mean option divides the same way in every form (R1); the diff-base label that marks base samples is written, tested and removed with one and the same key and value, is removed only by the report's graph construction, and is left in place by the proto output so a saved diff reopens as a diff (R2); the report total is computed by one function that takes absolute values and, for diffs, only base samples (R3, shape only); the sample loops of newGraph and newTree skip a sample only when its mean-divisor contribution is zero as well (R4); the per-sample seen-sets of newGraph are updated with exactly the key that was tested (R5). Not decided: the numbers themselves, recursion de-duplication, list/disasm/weblist value display under -mean."
+	c.Explanation = "Decides only two structural clauses of C04 (that flat, cum and edge weights equal their definition over samples is value-level and out of static reach): the printers of the output forms the property names (text/top items, tree/peek, dot, callgrind, topproto, web top) obtain node, edge and tag values through FlatValue/CumValue/WeightValue, or read the raw sum together with its divisor, so the mean option divides the same way in every form (R1); the diff-base label that marks base samples is written, tested and removed with one and the same key and value, is removed only by the report's graph construction, and is left in place by the proto output so a saved diff reopens as a diff (R2); the report total is computed by one function that takes absolute values and, for diffs, only base samples (R3, shape only); the sample loops of newGraph and newTree skip a sample only when its mean-divisor contribution is zero as well (R4); the per-sample seen-sets of newGraph are updated with exactly the key that was tested (R5). Also: edge weight is added under a per-sample seen-set keyed by caller and callee (R5), computeTotal selects dividend and divisor together (R6), newTree gives a location without lines one empty line so it keeps its frame (R7). Not decided: the numbers themselves, list/disasm/weblist value display under -mean."
 	p := c.P
 	// ---- R1 accessor discipline
 	printers := map[string]bool{
@@ -201,6 +201,230 @@ func runC04(c *Check) {
 	}
 	c.meanDivisorNeverSkipped()
 	c.seenSetKeys()
+	c.edgeDedupByPair()
+	c.totalAndDivisorTogether()
+	c.unsymbolizedFramesInTree()
+}
+
+// R5b: edge weights are de-duplicated per (caller, callee) pair and per sample: the
+// AddToEdgeDiv call of newGraph is dominated by a miss in a seen-set whose key is built
+// from both the callee node and the current parent.  De-duplicating by the callee alone
+// drops the edge of a node re-entered through a different caller.
+func (c *Check) edgeDedupByPair() {
+	p := c.P
+	f := c.anchorFn("C04-R5", "internal/graph", "newGraph")
+	if f == nil {
+		return
+	}
+	for _, b := range f.Blocks {
+		for _, ins := range b.Instrs {
+			call, ok := ins.(*ssa.Call)
+			if !ok || call.Call.StaticCallee() == nil || call.Call.StaticCallee().Name() != "AddToEdgeDiv" {
+				continue
+			}
+			parent, child := call.Call.Args[0], call.Call.Args[1]
+			found := false
+			for _, b2 := range f.Blocks {
+				if !b2.Dominates(b) {
+					continue
+				}
+				for _, i2 := range b2.Instrs {
+					lk, ok := i2.(*ssa.Lookup)
+					if !ok {
+						continue
+					}
+					if _, isMk := lk.X.(*ssa.MakeMap); !isMk {
+						continue
+					}
+					hasP, hasC := false, false
+					for _, v := range structKeyFields(lk.Index) {
+						if v == parent {
+							hasP = true
+						}
+						if v == child {
+							hasC = true
+						}
+					}
+					if hasP && hasC {
+						found = true
+					}
+				}
+			}
+			if found {
+				c.ok("C04-R5", "edge-dedup", p.relFile(call.Pos()), "edge weight is added once per (caller, callee) pair and sample", "AddToEdgeDiv is dominated by a lookup in a per-sample set keyed by both nodes")
+			} else {
+				c.bad("C04-R5", "edge-dedup", p.relFile(call.Pos()), "newGraph adds edge weight without a per-sample seen-set keyed by caller and callee: with recursion an adjacency is either counted more than once in a sample or (when keyed by the callee alone) the edge of a node re-entered through a different caller gets no weight")
+			}
+		}
+	}
+}
+
+// accumulatorBlocks: the blocks of the additions that feed a loop-carried sum.
+func accumulatorBlocks(v ssa.Value, seen map[ssa.Value]bool, out map[*ssa.BasicBlock]bool) {
+	if seen[v] {
+		return
+	}
+	seen[v] = true
+	switch x := v.(type) {
+	case *ssa.Phi:
+		for _, e := range x.Edges {
+			accumulatorBlocks(e, seen, out)
+		}
+	case *ssa.BinOp:
+		if x.Op == token.ADD {
+			out[x.Block()] = true
+			accumulatorBlocks(x.X, seen, out)
+		}
+	}
+}
+
+// R6: with the mean option the report total is a sum divided by the sum of counts of the
+// same samples.  In computeTotal the dividend and the divisor of the final quotient are
+// selected together: wherever the dividend switches to the base-only sum, the divisor
+// switches to the sum accumulated in the same place (under the same condition).
+func (c *Check) totalAndDivisorTogether() {
+	p := c.P
+	f := c.anchorFn("C04-R6", "internal/report", "computeTotal")
+	if f == nil {
+		return
+	}
+	var quo *ssa.BinOp
+	for _, b := range f.Blocks {
+		for _, ins := range b.Instrs {
+			if q, ok := ins.(*ssa.BinOp); ok && q.Op == token.QUO {
+				quo = q
+			}
+		}
+	}
+	if quo == nil {
+		c.undecided("C04-R6", "total/div", p.relFile(f.Pos()), "no quotient found in computeTotal")
+		return
+	}
+	blocksOf := func(v ssa.Value) map[*ssa.BasicBlock]bool {
+		out := map[*ssa.BasicBlock]bool{}
+		accumulatorBlocks(v, map[ssa.Value]bool{}, out)
+		return out
+	}
+	sameSet := func(a, b map[*ssa.BasicBlock]bool) bool {
+		if len(a) != len(b) {
+			return false
+		}
+		for k := range a {
+			if !b[k] {
+				return false
+			}
+		}
+		return true
+	}
+	px, okx := quo.X.(*ssa.Phi)
+	py, oky := quo.Y.(*ssa.Phi)
+	bad := ""
+	switch {
+	case okx != oky:
+		bad = "the dividend and the divisor are not selected together (one of them switches to the base-only sum, the other does not)"
+	case okx && (px.Block() != py.Block() || len(px.Edges) != len(py.Edges)):
+		bad = "the dividend and the divisor are selected at different places"
+	case okx:
+		for i := range px.Edges {
+			if !sameSet(blocksOf(px.Edges[i]), blocksOf(py.Edges[i])) {
+				bad = "on one path the dividend and the divisor are sums accumulated under different conditions"
+			}
+		}
+	default:
+		if !sameSet(blocksOf(quo.X), blocksOf(quo.Y)) {
+			bad = "dividend and divisor are sums accumulated under different conditions"
+		}
+	}
+	if bad == "" {
+		c.ok("C04-R6", "total/div", p.relFile(quo.Pos()), "the mean total divides each sum by the counts of the same samples", "dividend and divisor switch together and are accumulated in the same blocks")
+	} else {
+		c.bad("C04-R6", "total/div", p.relFile(quo.Pos()), "computeTotal: "+bad+": with the mean option a diff-base report divides the base samples' sum by the count of all samples")
+	}
+}
+
+// R7: a location without line information still occupies a frame.  In newTree the
+// per-location line loop runs over a list that has at least one entry on every path
+// (the location's lines when there are any, otherwise a single empty line), so an
+// unsymbolized frame gets its own node, flat value and edges in call_tree mode as it does
+// in graph mode.
+func (c *Check) unsymbolizedFramesInTree() {
+	p := c.P
+	f := c.anchorFn("C04-R7", "internal/graph", "newTree")
+	if f == nil {
+		return
+	}
+	g := newGuardEngine(p)
+	n := 0
+	for _, b := range f.Blocks {
+		for _, ins := range b.Instrs {
+			call, ok := ins.(*ssa.Call)
+			if !ok || call.Call.StaticCallee() == nil || call.Call.StaticCallee().Name() != "findOrInsertLine" {
+				continue
+			}
+			// the line argument lines[idx]: which list is indexed
+			var list ssa.Value
+			if ld, ok := call.Call.Args[2].(*ssa.UnOp); ok && ld.Op == token.MUL {
+				if ia, ok := ld.X.(*ssa.IndexAddr); ok {
+					list = ia.X
+				}
+			}
+			n++
+			key := "tree-unsymbolized"
+			if list == nil {
+				c.undecided("C04-R7", key, p.relFile(call.Pos()), "the line handed to findOrInsertLine is not an element of a list")
+				continue
+			}
+			nonEmpty := func(v ssa.Value, pred, blk *ssa.BasicBlock) bool {
+				if g.minLenByConstruction(v, 0) >= 1 {
+					return true
+				}
+				if pred == nil {
+					return false
+				}
+				// the edge pred→blk is taken only when len(v) != 0
+				for d, child := pred, blk; d != nil; child, d = d, d.Idom() {
+					iff, ok := d.Instrs[len(d.Instrs)-1].(*ssa.If)
+					if !ok {
+						continue
+					}
+					pol := 0
+					if d.Succs[0] == child && d.Succs[1] != child {
+						pol = 1
+					} else if d.Succs[1] == child && d.Succs[0] != child {
+						pol = -1
+					}
+					if pol == 0 || (d != pred && !(child.Dominates(pred) && len(child.Preds) == 1)) {
+						continue
+					}
+					for _, fct := range g.factsFromCond(iff.Cond, pol == 1) {
+						if fct.x != nil && g.same(fct.x, v) && (fct.min >= 1 || (fct.neqSet && fct.neq == 0)) {
+							return true
+						}
+					}
+				}
+				return false
+			}
+			okAll := false
+			if ph, isPhi := list.(*ssa.Phi); isPhi {
+				okAll = true
+				for i, e := range ph.Edges {
+					if !nonEmpty(e, ph.Block().Preds[i], ph.Block()) {
+						okAll = false
+					}
+				}
+			} else {
+				okAll = nonEmpty(list, nil, nil)
+			}
+			if okAll {
+				c.ok("C04-R7", key, p.relFile(call.Pos()), "every location yields at least one frame in the call tree", "the list of lines iterated per location has length >= 1 on every path (the location's own lines when non-empty, else a one-element list)")
+			} else {
+				c.bad("C04-R7", key, p.relFile(call.Pos()), "newTree iterates a location's lines without a fallback for locations that have none: an unsymbolized frame gets no node in call_tree mode, its flat value goes to its caller and the edges through it disappear (graph mode still shows it)")
+			}
+		}
+	}
+	if n == 0 {
+		c.undecided("C04-R7", "tree-unsymbolized", p.relFile(f.Pos()), "newTree no longer calls findOrInsertLine")
+	}
 }
 
 // structKeyFields: the field values of a struct built as a composite literal and loaded
